@@ -120,6 +120,7 @@ structure Run where
   fmts : List FileFmt := []                  -- one per file; missing = MGF
   lfqPlanted : List (Nat × List UInt8 × Bool) := [] -- (file, peptide, exact): clean MS1 envelope of a planted peptide;
                                              -- exact = the envelope is exactly the theoretical isotope distribution
+  parquet : Bool := false                    -- the harness ran the binary a second time with `--parquet`
 
 def Run.fmt (run : Run) (i : Nat) : FileFmt := run.fmts.getD i {}
 
@@ -841,6 +842,293 @@ def plantedViolation (run : Run) (rows : List Row) : Option String :=
         then some "planted_outranked_by_isobaric_decoy" else some "planted_peptide_not_rank_1"
       | none => some "planted_peptide_not_rank_1"
     | _, _ => some "planted_peptide_not_rank_1")
+
+/-! ## parquet output (`sage --parquet`)
+
+The harness runs the binary a SECOND time on the same inputs with `--parquet` (another output directory) and reads
+`results.sage.parquet`, `matched_fragments.sage.parquet` and `lfq.parquet` back with the `parquet` crate's record
+reader. `parquetViolation` says that these tables carry the same information as the TSV tables of the first run:
+
+* psm ids are handed out by a shared counter while spectra are scored in parallel, so they differ from run to run:
+  rows of the two runs are joined on **(filename, scannr, rank)** — unique in the TSV by `tableViolation` — and
+  never on `psm_id`; fragment rows go through their own run's `psm_id` to their PSM row and from there through
+  that key. Every other column of `results.sage.tsv` was observed to be identical between two runs of the same
+  binary on the same inputs, which is what makes an exact comparison meaningful;
+* every column the parquet schema shares with `results.sage.tsv` is compared exactly: text columns byte for byte,
+  integer columns as integers, `is_decoy` against `label == -1`, `semi_enzymatic` against the 0/1 cell, f32 columns
+  as bit patterns (the TSV prints the shortest decimal that round-trips — ryu — and the harness's `str::parse::<f32>`
+  recovers the bits; two NaNs are equal whatever their payload). `hyperscore`, `delta_next`, `delta_best`, `poisson`
+  are f64 in sage and in the TSV but f32 in the parquet schema (`as f32`): the parquet bits must be the IEEE
+  round-to-nearest-even narrowing of the TSV's f64 (`Float.toFloat32`);
+* `stripped_peptide` is the residue sequence of the `peptide` cell;
+* `reporter_ion_intensity` of a PSM row is the channel list of the `tmt.tsv` row with the SAME (filename, scannr) —
+  and null when the run has no such row (no TMT, MS3-level quantification of a spectrum without MS3 scan);
+* `matched_fragments.sage.parquet` exists iff `--annotate-matches`; per PSM its rows are the TSV's fragment rows
+  (as a multiset of (type, ordinal, charge, calculated m/z, experimental m/z, intensity));
+* `lfq.parquet` exists iff `lfq.tsv` does. It is in LONG format (one row per precursor and input file, decoy
+  precursors included) where the TSV is WIDE (one row per target precursor, one intensity column per file): the
+  non-decoy rows of a (peptide, charge) — null charge ⇔ the TSV's `-1` — are exactly one per input file, carry the
+  TSV row's `proteins` and `q_value`, and `intensity` is the f32 narrowing of that file's f64 TSV cell; every non-decoy
+  parquet row belongs to a TSV row; decoy precursors (absent from the TSV) have one row per input file each;
+* `--parquet` writes parquet INSTEAD of the TSV tables. -/
+
+/-- the seven f32 columns of `results.sage.tsv` that `Row` does not carry (same order as the rows) -/
+structure TsvExtra where
+  alignedRt : Nat
+  predictedRt : Nat
+  deltaRtModel : Nat
+  ionMobility : Nat
+  predictedMobility : Nat
+  deltaMobility : Nat
+  longestYPct : Nat
+
+/-- one row of `results.sage.parquet` (floats: f32 bits) -/
+structure PqRow where
+  psmId : Int
+  filename : List UInt8
+  scannr : List UInt8
+  peptide : List UInt8
+  stripped : List UInt8
+  proteins : List UInt8
+  numProteins : Int
+  rank : Int
+  isDecoy : Bool
+  expmass : Nat
+  calcmass : Nat
+  charge : Int
+  peptideLen : Int
+  missedCleavages : Int
+  semiEnzymatic : Bool
+  ms2Intensity : Nat
+  isotopeError : Nat
+  precursorPpm : Nat
+  fragmentPpm : Nat
+  hyperscore : Nat
+  deltaNext : Nat
+  deltaBest : Nat
+  rt : Nat
+  alignedRt : Nat
+  predictedRt : Nat
+  deltaRtModel : Nat
+  ionMobility : Nat
+  predictedMobility : Nat
+  deltaMobility : Nat
+  matchedPeaks : Int
+  longestB : Int
+  longestY : Int
+  longestYPct : Nat
+  matchedIntensityPct : Nat
+  scoredCandidates : Int
+  poisson : Nat
+  discriminant : Nat
+  posteriorError : Nat
+  spectrumQ : Nat
+  peptideQ : Nat
+  proteinQ : Nat
+  reporters : Option (List (Option Nat))     -- `reporter_ion_intensity`: null, or a list of nullable f32
+
+/-- one row of `matched_fragments.sage.parquet` -/
+structure PqFragRow where
+  psmId : Int
+  kind : List UInt8
+  ordinal : Int
+  charge : Int
+  mzCalc : Nat
+  mzExp : Nat
+  intensity : Nat
+
+/-- one row of `lfq.parquet` (long format) -/
+structure PqLfqRow where
+  peptide : List UInt8
+  stripped : List UInt8
+  charge : Option Int
+  proteins : List UInt8
+  isDecoy : Bool
+  q : Nat
+  filename : List UInt8
+  intensity : Nat
+
+structure PqTables where
+  extras : List TsvExtra
+  rows : List PqRow
+  frags : Option (List PqFragRow)
+  lfq : Option (List PqLfqRow)
+  tsvToo : Bool                      -- the `--parquet` run also wrote one of the TSV tables
+
+/-- the optional trailing group of the reply -/
+inductive PqReply where
+  | absent                           -- the request did not ask for the parquet run
+  | failed (cls : String)            -- the second run failed, or a file could not be read / lacks a column
+  | tables (t : PqTables)
+
+def f32IsNaN (b : Nat) : Bool := (b / 2 ^ 23) % 256 == 255 && b % 2 ^ 23 != 0
+
+/-- equal as bit patterns; two NaNs are equal whatever their sign / payload (the TSV prints `NaN`) -/
+def sameF32 (a b : Nat) : Bool := a == b || (f32IsNaN a && f32IsNaN b)
+
+/-- f32 bits of `x as f32` for the f64 with these bits (IEEE round to nearest, ties to even) -/
+def narrowF64 (b : Nat) : Nat := (Float.ofBits b.toUInt64).toFloat32.toBits.toNat
+
+/-- `a` and `b` hold the same elements with the same multiplicities -/
+def sameMultiset {α} [BEq α] : List α → List α → Bool
+  | [], b => b.isEmpty
+  | x :: a, b => b.any (· == x) && sameMultiset a (b.erase x)
+
+def stripOf (peptide : List UInt8) : Option (List UInt8) := (parsePeptide peptide).map (·.seq)
+
+/-- first column in which a parquet PSM row differs from the TSV row of the same (filename, scannr, rank) -/
+def pqRowDiff (r : Row) (x : TsvExtra) (p : PqRow) : Option String :=
+  if p.peptide != r.peptide then some "peptide" else
+  if p.proteins != r.proteins then some "proteins" else
+  if p.numProteins != (r.numProteins : Int) then some "num_proteins" else
+  if p.isDecoy != (r.label == -1) then some "is_decoy" else
+  if !sameF32 p.expmass r.expmass then some "expmass" else
+  if !sameF32 p.calcmass r.calcmass then some "calcmass" else
+  if p.charge != (r.charge : Int) then some "charge" else
+  if p.peptideLen != (r.peptideLen : Int) then some "peptide_len" else
+  if p.missedCleavages != (r.missedCleavages : Int) then some "missed_cleavages" else
+  if p.semiEnzymatic != (r.semiEnzymatic == 1) then some "semi_enzymatic" else
+  if !sameF32 p.ms2Intensity r.ms2Intensity then some "ms2_intensity" else
+  if !sameF32 p.isotopeError r.isotopeError then some "isotope_error" else
+  if !sameF32 p.precursorPpm r.precursorPpm then some "precursor_ppm" else
+  if !sameF32 p.fragmentPpm r.fragmentPpm then some "fragment_ppm" else
+  if !sameF32 p.hyperscore (narrowF64 r.hyperscore) then some "hyperscore" else
+  if !sameF32 p.deltaNext (narrowF64 r.deltaNext) then some "delta_next" else
+  if !sameF32 p.deltaBest (narrowF64 r.deltaBest) then some "delta_best" else
+  if !sameF32 p.rt r.rt then some "rt" else
+  if !sameF32 p.alignedRt x.alignedRt then some "aligned_rt" else
+  if !sameF32 p.predictedRt x.predictedRt then some "predicted_rt" else
+  if !sameF32 p.deltaRtModel x.deltaRtModel then some "delta_rt_model" else
+  if !sameF32 p.ionMobility x.ionMobility then some "ion_mobility" else
+  if !sameF32 p.predictedMobility x.predictedMobility then some "predicted_mobility" else
+  if !sameF32 p.deltaMobility x.deltaMobility then some "delta_mobility" else
+  if p.matchedPeaks != (r.matchedPeaks : Int) then some "matched_peaks" else
+  if p.longestB != (r.longestB : Int) then some "longest_b" else
+  if p.longestY != (r.longestY : Int) then some "longest_y" else
+  if !sameF32 p.longestYPct x.longestYPct then some "longest_y_pct" else
+  if !sameF32 p.matchedIntensityPct r.matchedIntensityPct then some "matched_intensity_pct" else
+  if p.scoredCandidates != (r.scoredCandidates : Int) then some "scored_candidates" else
+  if !sameF32 p.poisson (narrowF64 r.poisson) then some "poisson" else
+  if !sameF32 p.discriminant r.discriminant then some "sage_discriminant_score" else
+  if !sameF32 p.posteriorError r.posteriorError then some "posterior_error" else
+  if !sameF32 p.spectrumQ r.spectrumQ then some "spectrum_q" else
+  if !sameF32 p.peptideQ r.peptideQ then some "peptide_q" else
+  if !sameF32 p.proteinQ r.proteinQ then some "protein_q" else
+  none
+
+/-- the parquet PSM rows of the TSV row's (filename, scannr, rank) -/
+def pqPartners (pq : List PqRow) (r : Row) : List PqRow :=
+  pq.filter fun p => p.filename == r.filename && p.scannr == r.scannr && p.rank == (r.rank : Int)
+
+def pqAt (r : Row) : String := "@" ++ strOfBytes r.filename ++ ":" ++ strOfBytes r.scannr ++ "#" ++ toString r.rank
+
+/-- `results.sage.parquet` against `results.sage.tsv` -/
+def pqResultsViolation (rows : List Row) (t : PqTables) : Option String :=
+  if t.extras.length != rows.length then some "parquet_unparsable_tsv_extras" else
+  let ids := t.rows.map (·.psmId)
+  if ids.eraseDups.length != ids.length then some "parquet_psm_id_not_unique" else
+  match (rows.zip t.extras).findSome? (fun rx =>
+    match pqPartners t.rows rx.1 with
+    | [] => some ("parquet_row_missing" ++ pqAt rx.1)
+    | [p] =>
+      match pqRowDiff rx.1 rx.2 p with
+      | some col => some ("parquet_value_ne_tsv:" ++ col ++ pqAt rx.1)
+      | none =>
+        if stripOf p.peptide != some p.stripped then some ("parquet_stripped_peptide_ne_peptide_sequence" ++ pqAt rx.1)
+        else none
+    | _ => some ("parquet_row_duplicate" ++ pqAt rx.1)) with
+  | some c => some c
+  | none =>
+    -- every TSV row has exactly one partner and the keys are distinct: a surplus row has no TSV row
+    if t.rows.length != rows.length then some "parquet_row_without_tsv_row" else none
+
+/-- `reporter_ion_intensity` of every PSM row against the `tmt.tsv` row of the same (filename, scannr) -/
+def pqReporterViolation (tmts : List TmtRow) (t : PqTables) : Option String :=
+  t.rows.findSome? fun p =>
+    let at_ := "@" ++ strOfBytes p.filename ++ ":" ++ strOfBytes p.scannr ++ "#" ++ toString p.rank
+    match tmts.find? (fun q => q.filename == p.filename && q.scannr == p.scannr), p.reporters with
+    | none, none => none
+    | none, some _ => some ("parquet_reporter_ions_without_tmt_row" ++ at_)
+    | some _, none => some ("parquet_reporter_ions_missing" ++ at_)
+    | some q, some l =>
+      if l.length == q.values.length &&
+         (l.zip q.values).all (fun lv => match lv.1 with | some v => sameF32 v lv.2 | none => false) then none
+      else some ("parquet_reporter_ions_ne_tmt_row" ++ at_)
+
+def fragKeyTsv (f : FragRow) : List UInt8 × Int × Int × Nat × Nat × Nat :=
+  (f.kind, f.ordinal, f.charge, f.mzCalc, f.mzExp, f.intensity)
+def fragKeyPq (f : PqFragRow) : List UInt8 × Int × Int × Nat × Nat × Nat :=
+  (f.kind, f.ordinal, f.charge, f.mzCalc, f.mzExp, f.intensity)
+
+/-- `matched_fragments.sage.parquet` against `matched_fragments.sage.tsv` (joined through the PSM rows) -/
+def pqFragViolation (run : Run) (rows : List Row) (frags : List FragRow) (t : PqTables) : Option String :=
+  match run.cfg.annotate, t.frags with
+  | false, none => none
+  | false, some _ => some "parquet_fragments_file_without_annotate_matches"
+  | true, none => some "parquet_fragments_file_missing"
+  | true, some pf =>
+    if pf.any (fun f => !(t.rows.any fun p => p.psmId == f.psmId)) then some "parquet_fragment_row_without_psm" else
+    rows.findSome? fun r =>
+      match pqPartners t.rows r with
+      | [p] =>
+        let a := (frags.filter fun f => f.psmId == r.psmId).map fragKeyTsv
+        let b := (pf.filter fun f => f.psmId == p.psmId).map fragKeyPq
+        if sameMultiset a b then none else some ("parquet_fragments_ne_tsv" ++ pqAt r)
+      | _ => some ("parquet_row_missing" ++ pqAt r)
+
+def lfqChargeOf (c : Int) : Option Int := if c == -1 then none else some c
+
+/-- `lfq.parquet` (long) against `lfq.tsv` (wide) -/
+def pqLfqViolation (lfq : Option LfqTable) (t : PqTables) : Option String :=
+  match lfq, t.lfq with
+  | none, none => none
+  | none, some _ => some "parquet_lfq_file_without_lfq_tsv"
+  | some _, none => some "parquet_lfq_file_missing"
+  | some w, some pl =>
+    let n := w.fileCols.length
+    let targets := pl.filter fun x => !x.isDecoy
+    match w.rows.findSome? (fun l =>
+      let at_ := "@" ++ strOfBytes l.peptide ++ "/" ++ toString l.charge
+      let grp := targets.filter fun x => x.peptide == l.peptide && x.charge == lfqChargeOf l.charge
+      if grp.length != n then some ("parquet_lfq_rows_ne_one_per_file" ++ at_) else
+      w.fileCols.zipIdx.findSome? fun ci =>
+        match grp.filter (fun x => x.filename == ci.1) with
+        | [x] =>
+          if x.proteins != l.proteins then some ("parquet_lfq_value_ne_tsv:proteins" ++ at_) else
+          if !sameF32 x.q l.q then some ("parquet_lfq_value_ne_tsv:q_value" ++ at_) else
+          if !(match l.values[ci.2]? with | some v => sameF32 x.intensity (narrowF64 v) | none => false) then
+            some ("parquet_lfq_value_ne_tsv:intensity" ++ at_ ++ "@" ++ strOfBytes ci.1) else
+          if stripOf x.peptide != some x.stripped then some ("parquet_lfq_stripped_peptide_ne_peptide_sequence" ++ at_) else
+          none
+        | _ => some ("parquet_lfq_rows_ne_one_per_file" ++ at_)) with
+    | some c => some c
+    | none =>
+      if targets.any (fun x => !(w.rows.any fun l => l.peptide == x.peptide && lfqChargeOf l.charge == x.charge)) then
+        some "parquet_lfq_row_without_tsv_row" else
+      -- decoy precursors are not in the TSV: shape only (each of them once per input file)
+      let decoys := pl.filter fun x => x.isDecoy
+      if decoys.any (fun x =>
+          let grp := decoys.filter fun y => y.peptide == x.peptide && y.charge == x.charge
+          n == 0 || grp.length % n != 0 ||
+          w.fileCols.any fun c => (grp.filter fun y => y.filename == c).length != grp.length / n) then
+        some "parquet_lfq_decoy_rows_ne_one_per_file" else
+      if decoys.any (fun x => stripOf x.peptide != some x.stripped) then
+        some "parquet_lfq_stripped_peptide_ne_peptide_sequence" else none
+
+/-- the parquet tables of the second (`--parquet`) run against the TSV tables of the first -/
+def parquetViolation (run : Run) (rows : List Row) (frags : List FragRow) (tmts : List TmtRow)
+    (lfq : Option LfqTable) (pq : PqReply) : Option String :=
+  match run.parquet, pq with
+  | false, .absent => none
+  | false, _ => some "parquet_tables_without_request"
+  | true, .absent => some "parquet_tables_missing_from_reply"
+  | true, .failed cls => some ("parquet_run_failed_" ++ cls)
+  | true, .tables t =>
+    (pqResultsViolation rows t).orElse fun _ =>
+    (pqReporterViolation tmts t).orElse fun _ =>
+    (pqFragViolation run rows frags t).orElse fun _ =>
+    (pqLfqViolation lfq t).orElse fun _ =>
+    if t.tsvToo then some "parquet_mode_also_wrote_tsv" else none
 
 /-! ## column tables (regenerated from runner.rs by the translator): header ↦ field -/
 
